@@ -1320,6 +1320,15 @@ func (h *Hashgraph) ProcessSigPool() error {
 	h.logger.WithField("pending_signatures", h.PendingSignatures.Len()).Debug("ProcessSigPool()")
 
 	for _, bs := range h.PendingSignatures.Items() {
+		// A signature can arrive before this Hashgraph has produced the Block it
+		// refers to; it waits in the pool. The Store is not asked for such a
+		// Block: while bootstrapping, a persistent Store still holds the Blocks
+		// of the previous run, and saving one of them again would move the
+		// last-block index ahead of the Blocks that are being re-created.
+		if bs.Index > h.Store.LastBlockIndex() {
+			continue
+		}
+
 		block, err := h.Store.GetBlock(bs.Index)
 		if err != nil {
 			h.logger.WithFields(logrus.Fields{
